@@ -2,7 +2,13 @@
 
 package bkl
 
+import (
+	"fmt"
+	"sync"
+)
+
 func init() {
+	vRegister("HarnessC09_retain", HarnessC09_retain)
 	vRegister("HarnessC09_order", HarnessC09_order)
 	vRegister("HarnessC09_witness", HarnessC09_witness)
 }
@@ -147,4 +153,57 @@ func HarnessC09_witness() {
 			vAssert("C09.output", vEq(outs, refOuts))
 		}
 	}
+}
+
+// HarnessC09_retain: the bytes returned for one evaluation do not depend on
+// other evaluations of the same process, before, after or concurrently: a
+// returned slice keeps its content while other inputs are evaluated, and the
+// same input gives the same bytes again. (The stream codecs are a native
+// boundary of the engine, assumed to be pure functions of their data; this
+// harness is where the native replay of every path checks that assumption
+// against the real build, goroutines included.)
+func HarnessC09_retain() {
+	f := []string{"json", "jsonl", "json-pretty", "yaml", "toml"}[ndChoice(5)]
+	mk := func(i int) any {
+		return map[string]any{"name": fmt.Sprintf("n%04d", i), "port": 1000 + i, "l": []any{"x", i}}
+	}
+	out := func(d any) []byte {
+		p, _ := New()
+		if p.MergeDocument(NewDocumentWithData("d", vCopy(d))) != nil {
+			vAssert("C09.retain.merge", false)
+		}
+		b, err := p.Output(f)
+		vAssert("C09.retain.accepted", err == nil)
+		return b
+	}
+	a1 := out(mk(1)) // retained as returned, not copied
+	keep := string(a1)
+	b1 := out(mk(2))
+	a2 := out(mk(1))
+	vAssert("C09.retain.later", string(a1) == keep)
+	vAssert("C09.retain.same", string(a2) == keep)
+	vAssert("C09.retain.other", string(b1) != keep)
+	if vIsNative() {
+		var wg sync.WaitGroup
+		const G, N = 8, 40
+		got := make([][][]byte, G)
+		for g := 0; g < G; g++ {
+			got[g] = make([][]byte, N)
+			wg.Add(1)
+			go func(g int) {
+				defer wg.Done()
+				for i := 0; i < N; i++ {
+					got[g][i] = out(mk(10 + g))
+				}
+			}(g)
+		}
+		wg.Wait()
+		for g := 0; g < G; g++ {
+			want := string(out(mk(10 + g)))
+			for i := 0; i < N; i++ {
+				vAssert("C09.retain.concurrent", string(got[g][i]) == want)
+			}
+		}
+	}
+	vCover("retain.checked")
 }
